@@ -6,6 +6,11 @@ import scipy.sparse as sp
 
 from .. import hier
 
+def _nn(v):
+    """NaN counts as 'exceeds every bound' in the oracle comparisons"""
+    return np.inf if np.isnan(v) else v
+
+
 TECHNIQUE = 'Coq proof of the accel-branch control logic (preconditioner = one cycle = M, history seeding) + spy-accelerator correspondence + per-input convergence oracle'
 LEVEL_TEXT = ('Kernel-checked theorems (Props/C08.v): the operator handed to the accelerator is one cycle of the requested '
               'type from the zero guess, i.e. the textbook M of C03 for every hierarchy; for SciPy-style accelerators the '
@@ -102,7 +107,7 @@ def run(ctx):
                     v = np.array([rng.uniform(-1, 1) for _ in range(n)])
                     want = ml.solve(v, x0=np.zeros(n), maxiter=1, cycle=cyc, tol=1e-300)
                     got = seen['M'] @ v
-                    if np.linalg.norm(got - want) > 1e-12 * (1 + np.linalg.norm(want)):
+                    if _nn(np.linalg.norm(got - want)) > 1e-12 * (1 + np.linalg.norm(want)):
                         ctx.fail('accel/preconditioner-not-requested-cycle', '%s-cycle requested, |M v - cycle(v)| = %.3g'
                                  % (cyc, np.linalg.norm(got - want)), case)
                     # history: seeded + one entry per callback (SciPy style) / as filled by the accelerator
